@@ -166,6 +166,9 @@ func (lp *logProcessor[INPUT, OUTPUT]) forgeLog(
 		if errors.Is(err, postgres.ErrDeadlockDetected) || errors.Is(err, ledgerstore.ErrIdempotencyKeyConflict{}) {
 			return lp.forgeLogRetry(ctx, store, parameters, fn)
 		}
+		if log, output, ok := lp.concurrentIdempotentOutcome(ctx, store, parameters); ok {
+			return log, output, true, nil
+		}
 		return nil, nil, false, fmt.Errorf("unexpected error while forging log: %w", err)
 	}
 
@@ -210,12 +213,29 @@ func (lp *logProcessor[INPUT, OUTPUT]) forgeLogRetry(
 
 				return log, output, true, nil
 			default:
+				if log, output, ok := lp.concurrentIdempotentOutcome(ctx, store, parameters); ok {
+					return log, output, true, nil
+				}
 				return nil, nil, false, fmt.Errorf("unexpected error while forging log: %w", err)
 			}
 		}
 
 		return log, output, false, nil
 	}
+}
+
+// concurrentIdempotentOutcome is consulted when an operation carrying an idempotency key has failed: a concurrent
+// request with the same key and the same input may have committed while this one was running (it was not visible
+// when the key was first looked up), in which case its log, not the failure of the re-execution, is the answer.
+func (lp *logProcessor[INPUT, OUTPUT]) concurrentIdempotentOutcome(ctx context.Context, store Store, parameters Parameters[INPUT]) (*ledger.Log, *OUTPUT, bool) {
+	if parameters.IdempotencyKey == "" {
+		return nil, nil, false
+	}
+	log, output, err := lp.fetchLogWithIK(ctx, store, parameters)
+	if err != nil || output == nil {
+		return nil, nil, false
+	}
+	return log, output, true
 }
 
 func (lp *logProcessor[INPUT, OUTPUT]) fetchLogWithIK(ctx context.Context, store Store, parameters Parameters[INPUT]) (*ledger.Log, *OUTPUT, error) {
